@@ -281,6 +281,8 @@ pub struct Plan {
 pub struct StoreState {
     pub creds: Vec<Passkey>,
     pub plan: Plan,
+    /// list results newest first (the contract leaves the listing order to the store)
+    pub newest_first: bool,
 }
 
 #[derive(Clone)]
@@ -297,6 +299,7 @@ impl RecStore {
             state: Arc::new(Mutex::new(StoreState {
                 creds: Vec::new(),
                 plan: Plan::default(),
+                newest_first: false,
             })),
             log,
             disc,
@@ -318,6 +321,9 @@ impl RecStore {
     }
     pub fn set_yields(&self, k: Kind, n: usize) {
         self.state.lock().unwrap().plan.yields.insert(k, n);
+    }
+    pub fn set_newest_first(&self, v: bool) {
+        self.state.lock().unwrap().newest_first = v;
     }
     pub fn set_all_yields(&self, n: usize) {
         for k in [Kind::Find, Kind::Save, Kind::Update, Kind::Info] {
@@ -383,7 +389,11 @@ impl CredentialStore for RecStore {
         }
         let found = {
             let g = self.state.lock().unwrap();
-            RecStore::model_find(&g.creds, id_list.as_deref(), rp_id)
+            let mut f = RecStore::model_find(&g.creds, id_list.as_deref(), rp_id);
+            if g.newest_first {
+                f.reverse();
+            }
+            f
         };
         self.log.push(
             self.actor,
